@@ -791,7 +791,7 @@ class KernelCpu:
                         value._buffer.context, ContextCpu
                     ), f"Incompatible context for argument `{arg.name}`."
                     return self.ffi_interface.cast(
-                        value._c_type + "*",
+                        value._itemtype._c_type + "*",
                         self.ffi_interface.from_buffer(
                             value._buffer.buffer[
                                 value._offset + value._data_offset :
